@@ -138,6 +138,7 @@ func (e event) String() string { return e.coq() }
 type world struct {
 	mu        sync.Mutex
 	events    []event
+	full      []event // writer callbacks plus invocations / returns of the client calls, for the Go-side oracle
 	vals      []int
 	gateMask  int
 	pass      atomic.Bool // gates are pass-through (cleanup / free mode)
@@ -154,6 +155,7 @@ var knownWriters sync.Map // gid -> true
 func (w *world) wevent(e event) {
 	w.mu.Lock()
 	w.events = append(w.events, e)
+	w.full = append(w.full, e)
 	w.mu.Unlock()
 	switch e.kind {
 	case kBatched:
@@ -442,14 +444,21 @@ func (r *runner) release(op *opRun) {
 		case opEnq:
 			r.w.mu.Lock()
 			r.w.vals[op.Obj] = op.Val
+			r.w.full = append(r.w.full, event{kind: kSet, t: op.idx, o: op.Obj, v: op.Val})
 			r.w.mu.Unlock()
 			r.bw.Enqueue(r.w.objs[op.Obj])
 		case opFlush:
 			r.bw.Flush()
 		case opStop:
+			r.w.mu.Lock()
+			r.w.full = append(r.w.full, event{kind: kInv, t: op.idx})
+			r.w.mu.Unlock()
 			r.bw.StopBatchWriter()
 		}
 		opByGid.Delete(g)
+		r.w.mu.Lock()
+		r.w.full = append(r.w.full, event{kind: kRet, t: op.idx, v: op.class()})
+		r.w.mu.Unlock()
 		op.returned.Store(true)
 	}()
 }
@@ -654,6 +663,45 @@ func runScript(rng *vx.Rng, directed int) (*scriptCase, *runner) {
 	return sc, r
 }
 
+// endState: the full log, whether a Stop call that was invoked after an accepted Enqueue had returned has itself
+// returned, and (in that case) what is wrong with the final state: the writer has terminated, so a call that is
+// still inside Enqueue past the hook can never return, and nothing may be left in the queue.
+func (r *runner) endState() (full []event, stopped bool, msg string) {
+	r.w.mu.Lock()
+	full = append([]event(nil), r.w.full...)
+	r.w.mu.Unlock()
+	accepted := false
+	stopInvAfter := map[int]bool{}
+	for _, e := range full {
+		switch {
+		case e.kind == kRet && (e.v == 0 || e.v == 2):
+			accepted = true
+		case e.kind == kInv && accepted:
+			stopInvAfter[e.t] = true
+		case e.kind == kRet && e.v == 4 && stopInvAfter[e.t]:
+			stopped = true
+		}
+	}
+	if !stopped || r.hang != "" {
+		return
+	}
+	_, sched, qlen, _ := r.bw.VerifState()
+	atHook := 0
+	for _, op := range r.ops {
+		if op.started && !op.returned.Load() {
+			if op.atHook.Load() {
+				atHook++
+			} else if op.Kind == opEnq {
+				msg = fmt.Sprintf("Enqueue call %d is still blocked although StopBatchWriter has returned (writer terminated)", op.idx)
+			}
+		}
+	}
+	if msg == "" && (qlen != 0 || sched != atHook) {
+		msg = fmt.Sprintf("after StopBatchWriter returned: %d object(s) left in the queue, scheduledCount=%d with %d call(s) at the hook", qlen, sched, atHook)
+	}
+	return
+}
+
 // cleanup lets everything run and stops the writer (asynchronously; it ends with the next batch timeout).
 func (r *runner) cleanup() {
 	r.w.pass.Store(true)
@@ -852,8 +900,8 @@ func runFree(rng *vx.Rng, shape int) (log []event, final []int, desc string, han
 	}()
 	select {
 	case <-done:
-	case <-time.After(10 * time.Second):
-		hang = "Stop or an Enqueue call did not return within 10s"
+	case <-time.After(8 * time.Second):
+		hang = "Stop or an Enqueue call did not return within 8s"
 	}
 	time.Sleep(time.Duration(2+rng.Intn(3)) * T) // a writer that is still alive would show up in the log
 	w.mu.Lock()
@@ -892,6 +940,10 @@ func main() {
 		r       *runner
 		final   []int
 		retries int
+		full    []event
+		// a Stop call released after an Enqueue call had returned "accepted" (so the writer existed) has returned
+		stoppedAfterStart bool
+		endMsg            string
 	}
 	results := make([]result, *n)
 	subs := make([][]*vx.Rng, *n)
@@ -901,6 +953,7 @@ func main() {
 		}
 	}
 	var next atomic.Int32
+	var hangs atomic.Int32
 	var wgw sync.WaitGroup
 	for wk := 0; wk < *workers; wk++ {
 		wgw.Add(1)
@@ -915,12 +968,19 @@ func main() {
 				if i < 4 {
 					directed = i + 1
 				}
+				if hangs.Load() >= 3 { // every further case would run into the watchdogs as well
+					continue
+				}
 				for try := 0; try < 5; try++ {
 					sc, r := runScript(subs[i][try], directed)
 					final := r.w.finalStore()
+					full, stopped, endMsg := r.endState()
 					r.cleanup()
+					if r.hang != "" {
+						hangs.Add(1)
+					}
 					if !r.tainted {
-						results[i] = result{sc: sc, r: r, final: final, retries: try}
+						results[i] = result{sc: sc, r: r, final: final, retries: try, full: full, stoppedAfterStart: stopped, endMsg: endMsg}
 						break
 					}
 					results[i].retries = try + 1
@@ -936,7 +996,11 @@ func main() {
 			st.Count("tainted-retry")
 		}
 		if sc == nil {
-			st.Count("tainted-dropped")
+			if hangs.Load() >= 3 {
+				st.Count("skipped-after-hangs")
+			} else {
+				st.Count("tainted-dropped")
+			}
 			continue
 		}
 		holds := [][2]int{}
@@ -974,8 +1038,11 @@ func main() {
 				stopRet = true
 			}
 		}
-		if msg := judge(lg, final, false); msg != "" {
+		_ = lg
+		if msg := judge(results[i].full, final, results[i].stoppedAfterStart); msg != "" {
 			st.Fail(map[string]any{"mode": "scripted", "what": msg, "cfg": sc.Desc, "ops": sc.Ops, "items": sc.Items})
+		} else if results[i].endMsg != "" {
+			st.Fail(map[string]any{"mode": "scripted", "what": results[i].endMsg, "cfg": sc.Desc, "ops": sc.Ops, "items": sc.Items})
 		}
 		if r.hang != "" {
 			st.Fail(map[string]any{"mode": "scripted", "what": "harness watchdog: " + r.hang, "cfg": sc.Desc, "ops": sc.Ops, "items": sc.Items})
@@ -1003,13 +1070,19 @@ func main() {
 			time.Sleep(20 * time.Microsecond)
 		}
 	})
+	freeHangs := 0
 	for i := 0; i < *nfree; i++ {
+		if freeHangs >= 3 {
+			st.Count("skipped-after-hangs")
+			continue
+		}
 		sub := rng.Fork()
 		shape := i % 3
 		log, final, desc, hang := runFree(sub, shape)
 		cf.Add(fmt.Sprintf("Free %s 3 %s true", vx.ListOf(log, func(e event) string { return e.coq() }), storeCoq(final)))
 		st.CaseIndex = append(st.CaseIndex, map[string]any{"mode": "free", "cfg": desc, "index": i})
 		if hang != "" {
+			freeHangs++
 			st.Fail(map[string]any{"mode": "free", "what": hang, "cfg": desc, "index": i})
 		} else if msg := judge(log, final, true); msg != "" {
 			st.Fail(map[string]any{"mode": "free", "what": msg, "cfg": desc, "index": i, "log": fmt.Sprint(log)})
